@@ -11,7 +11,8 @@ use sha2::{Digest, Sha256};
 pub fn make_cfg(seed: u64, idx: u64) -> gen_::Cfg {
     let mut rng = Rng::new(seed.wrapping_mul(1_000_003).wrapping_add(idx));
     let mut cfg = gen_::rand_cfg(&mut rng, 3, 400);
-    cfg.source_date = Some(1_600_000_000);
+    // (the source date is usually 1 600 000 000; now and then the epoch itself or its first second)
+    cfg.source_date = Some(match idx % 8 { 5 => 0, 6 => 1, _ => 1_600_000_000 });
     // several distinct non-root owners and groups
     let users = ["alice", "bob", "carol", "dave", "eve", "mallory", "trent"];
     let groups = ["staff", "wheel", "adm", "users", "audio", "video"];
@@ -21,7 +22,7 @@ pub fn make_cfg(seed: u64, idx: u64) -> gen_::Cfg {
         let mut f = gen_::rand_file(&mut rng, &mut used, 200);
         f.user = Some(users[(k + idx as usize) % users.len()].to_string());
         f.group = Some(groups[(k * 2 + idx as usize) % groups.len()].to_string());
-        f.mtime = if k % 2 == 0 { 1_500_000_000 + k as u32 } else { 1_700_000_000 + k as u32 };
+        f.mtime = if k % 2 == 0 { 1_500_000_000 + k as u32 } else if k % 4 == 3 { 2_200_000_000 + k as u32 } else { 1_700_000_000 + k as u32 };
         cfg.files.push(f);
     }
     // every third configuration is (also) made of the names real packages carry, half of them newer than the source date
